@@ -95,6 +95,11 @@ type SameTypeDecl struct {
 	Distinct  bool // the declaration says the two are different types
 }
 
+type FieldDecl struct {
+	Pkg, Struct, Field, Mutex string
+	Props                     []string
+}
+
 type GlobalDecl struct {
 	Pkg, Name string
 	Kind      string // guarded_by, init-only, immutable, mutex
@@ -237,6 +242,23 @@ func (g *Gen) loadContractFile(path string) error {
 			for _, f := range strings.Fields(rest) {
 				g.apiRoots[pkg+"."+f] = true
 			}
+		case "field":
+			// field <Struct>.<field> guarded_by <mutex field> [Cnn,...]  -- a map or slice held in a struct field that goroutines
+			// share: every read and write of the value loaded from x.<field> happens with x.<mutex field> held
+			f := strings.Fields(rest)
+			if len(f) < 3 || f[1] != "guarded_by" || !strings.Contains(f[0], ".") {
+				return fmt.Errorf("%s:%d: bad field declaration", path, ln)
+			}
+			fd := &FieldDecl{Pkg: pkg, Struct: f[0][:strings.Index(f[0], ".")], Field: f[0][strings.Index(f[0], ".")+1:], Mutex: f[2]}
+			for _, w := range f[3:] {
+				if m := regexp.MustCompile(`^\[([A-Z0-9, ]+)\]$`).FindStringSubmatch(w); m != nil {
+					fd.Props = append(fd.Props, parseProps(m[1])...)
+				}
+			}
+			if g.fieldsDecl == nil {
+				g.fieldsDecl = map[string]*FieldDecl{}
+			}
+			g.fieldsDecl[fd.Struct+"."+fd.Field] = fd
 		case "global":
 			f := strings.Fields(rest)
 			if len(f) < 2 {
